@@ -150,6 +150,12 @@ pub fn scale_family() -> Vec<(String, Cfg)> {
     let alts: Vec<String> = (0..300).map(|i| format!("k{:03}", i)).collect();
     v.push(("alt300".to_string(), Cfg::single(vec![CPat::new(&alts.join("|"), 0), CPat::new("k\\d*", 1)])));
     v.push(("opt-chain".to_string(), Cfg::single(vec![CPat::new("(a?){30}b", 0), CPat::new("a{0,40}", 1)])));
+    // bounded ranges whose span (number of optional copies, i.e. the size of the closures of the
+    // construction) crosses 16, 32, 64, 128 and 256
+    for (n, m) in [(0usize, 10usize), (1, 20), (0, 40), (2, 70), (0, 100), (2, 150), (100, 180)] {
+        v.push((format!("a{{{n},{m}}}"), Cfg::single(vec![CPat::new(&format!("a{{{n},{m}}}"), 0), CPat::new("[ab]", 1)])));
+    }
+    v.push(("(ab|c){1,70}d?".to_string(), Cfg::single(vec![CPat::new("(ab|c){1,70}d?", 2), CPat::new("c+", 0)])));
     // more than 256 / 512 patterns, classes, states, groups, transitions of one state
     let chars: Vec<char> = (0x4e00u32..0x4e00 + 700).filter_map(char::from_u32).collect();
     v.push(("300 one-char patterns".to_string(), Cfg::single((0..300).map(|i| CPat::new(&chars[i].to_string(), i)).collect())));
